@@ -605,7 +605,7 @@ class RegExec:
                             "startswith", "endswith", "join", "format",
                             "to_bytes", "bit_length", "index", "count",
                             "upper", "lower", "pop", "insert", "copy",
-                            "union", "split", "strip"):
+                            "union", "split", "strip", "translate"):
                     try:
                         return getattr(base, name)(*args, **kwargs)
                     except (TypeError, ValueError, KeyError) as ex:
